@@ -98,6 +98,9 @@ impl Findings {
     }
 
     pub fn gate_closed(&self, prop: &str, gate: &str) -> bool {
+        if dev_open_gates().iter().any(|g| g == gate) {
+            return false;
+        }
         if dev_gates().iter().any(|g| g == gate) {
             return true;
         }
@@ -113,6 +116,7 @@ impl Findings {
             .filter(|f| !f.fixed && f.property == prop)
             .filter_map(|f| f.gate.clone())
             .chain(dev_gates())
+            .filter(|g| !dev_open_gates().contains(g))
             .collect();
         v.sort();
         v.dedup();
@@ -149,4 +153,9 @@ pub fn glob(pat: &str, text: &str) -> bool {
 /// the registered commands.
 fn dev_gates() -> Vec<String> {
     std::env::var("VERIF_DEV_GATES").map(|v| v.split(',').filter(|s| !s.is_empty()).map(|s| s.to_string()).collect()).unwrap_or_default()
+}
+
+/// VERIF_DEV_OPEN_GATES=a,b : development aid (re-opens gates to produce a witness).
+fn dev_open_gates() -> Vec<String> {
+    std::env::var("VERIF_DEV_OPEN_GATES").map(|v| v.split(',').filter(|s| !s.is_empty()).map(|s| s.to_string()).collect()).unwrap_or_default()
 }
